@@ -18,9 +18,19 @@ import (
 type RTypeV struct{ t types.Type }
 
 const (
-	rflagAddr = 1 << iota // addressable
-	rflagRO               // obtained through an unexported field
+	rflagAddr     = 1 << iota // addressable
+	rflagStickyRO             // obtained through an unexported, not embedded field (propagates)
+	rflagEmbedRO              // obtained through an unexported embedded field (cleared by an exported Field)
+	rflagRO       = rflagStickyRO | rflagEmbedRO
 )
+
+// rro mirrors reflect's flag.ro(): any read-only-ness becomes sticky when propagated.
+func rro(fl uint64) uint64 {
+	if fl&rflagRO != 0 {
+		return rflagStickyRO
+	}
+	return 0
+}
 
 type reflectEnv struct {
 	rtypePtr     types.Type // *reflect.rtype (dynamic type marker of reflect.Type values)
@@ -525,7 +535,7 @@ func init() {
 		if fl&rflagAddr == 0 {
 			ex.rtPanic("reflect.Value.Addr of unaddressable value")
 		}
-		return ex.mkRValue(pk, types.NewPointer(t), ex.newObj(loc), fl&rflagRO)
+		return ex.mkRValue(pk, types.NewPointer(t), ex.newObj(loc), rro(fl))
 	}
 	m["Elem"] = func(ex *Exec, pk string, _ *ssa.Function, a []Value) Value {
 		t, loc, fl := ex.rvalMust(a[0], "Elem")
@@ -535,13 +545,13 @@ func init() {
 			if p.c == nil {
 				return zero(valueStructType(ex.eng, pk))
 			}
-			return ex.mkRValue(pk, u.Elem(), p, rflagAddr|fl&rflagRO)
+			return ex.mkRValue(pk, u.Elem(), p, rflagAddr|rro(fl))
 		case *types.Interface:
 			iv := ex.load(loc).(IfaceV)
 			if iv.t == nil {
 				return zero(valueStructType(ex.eng, pk))
 			}
-			return ex.mkRValue(pk, iv.t, ex.newObj(ex.copyVal(iv.v)), fl&rflagRO)
+			return ex.mkRValue(pk, iv.t, ex.newObj(ex.copyVal(iv.v)), rro(fl))
 		}
 		ex.rtPanic("reflect: call of reflect.Value.Elem on " + typeString(t) + " Value")
 		return nil
@@ -711,9 +721,13 @@ func init() {
 			ex.rtPanic("reflect: Field index out of range")
 		}
 		sc := ex.loadRef(loc).(*Cont)
-		nfl := fl
+		nfl := fl & (rflagAddr | rflagStickyRO)
 		if !st.Field(i).Exported() {
-			nfl |= rflagRO
+			if st.Field(i).Embedded() {
+				nfl |= rflagEmbedRO
+			} else {
+				nfl |= rflagStickyRO
+			}
 		}
 		return ex.mkRValue(pk, st.Field(i).Type(), Ptr{c: sc, i: i}, nfl)
 	}
@@ -726,19 +740,19 @@ func init() {
 			if i < 0 || i >= s.ln {
 				ex.rtPanic("reflect: slice index out of range")
 			}
-			return ex.mkRValue(pk, u.Elem(), Ptr{c: s.c, i: s.off + i}, rflagAddr|fl&rflagRO)
+			return ex.mkRValue(pk, u.Elem(), Ptr{c: s.c, i: s.off + i}, rflagAddr|rro(fl))
 		case *types.Array:
 			arr := ex.loadRef(loc).(*Cont)
 			if i < 0 || i >= len(arr.v) {
 				ex.rtPanic("reflect: array index out of range")
 			}
-			return ex.mkRValue(pk, u.Elem(), Ptr{c: arr, i: i}, fl)
+			return ex.mkRValue(pk, u.Elem(), Ptr{c: arr, i: i}, fl&rflagAddr|rro(fl))
 		case *types.Basic:
 			s := ex.load(loc).(StrV)
 			if i < 0 || i >= s.Len() {
 				ex.rtPanic("reflect: string index out of range")
 			}
-			return ex.mkRValue(pk, types.Typ[types.Uint8], ex.newObj(s.At(i)), fl&rflagRO)
+			return ex.mkRValue(pk, types.Typ[types.Uint8], ex.newObj(s.At(i)), rro(fl))
 		}
 		ex.rtPanic("reflect: call of reflect.Value.Index on " + typeString(t) + " Value")
 		return nil
@@ -801,7 +815,7 @@ func init() {
 			if i < 0 || j < i || j > s.cp {
 				ex.rtPanic("reflect.Value.Slice: slice index out of bounds")
 			}
-			return ex.mkRValue(pk, t, ex.newObj(SliceV{c: s.c, off: s.off + i, ln: j - i, cp: s.cp - i}), fl&rflagRO)
+			return ex.mkRValue(pk, t, ex.newObj(SliceV{c: s.c, off: s.off + i, ln: j - i, cp: s.cp - i}), rro(fl))
 		case *types.Array:
 			if fl&rflagAddr == 0 {
 				ex.rtPanic("reflect.Value.Slice: slice of unaddressable array")
@@ -810,10 +824,10 @@ func init() {
 			if i < 0 || j < i || j > len(arr.v) {
 				ex.rtPanic("reflect.Value.Slice: slice index out of bounds")
 			}
-			return ex.mkRValue(pk, types.NewSlice(u.Elem()), ex.newObj(SliceV{c: arr, off: i, ln: j - i, cp: len(arr.v) - i}), fl&rflagRO)
+			return ex.mkRValue(pk, types.NewSlice(u.Elem()), ex.newObj(SliceV{c: arr, off: i, ln: j - i, cp: len(arr.v) - i}), rro(fl))
 		case *types.Basic:
 			s := ex.load(loc).(StrV)
-			return ex.mkRValue(pk, t, ex.newObj(s.Sub(i, j)), fl&rflagRO)
+			return ex.mkRValue(pk, t, ex.newObj(s.Sub(i, j)), rro(fl))
 		}
 		ex.rtPanic("reflect: call of reflect.Value.Slice on " + typeString(t) + " Value")
 		return nil
@@ -846,7 +860,7 @@ func init() {
 		_, kloc, _ := ex.rvalMust(a[1], "MapIndex key")
 		if mm != nil {
 			if i := ex.mapFind(mm, ex.load(kloc)); i >= 0 {
-				return ex.mkRValue(pk, mt.Elem(), ex.newObj(ex.copyVal(ex.mapR(mm).ents[i].v)), fl&rflagRO)
+				return ex.mkRValue(pk, mt.Elem(), ex.newObj(ex.copyVal(ex.mapR(mm).ents[i].v)), rro(fl))
 			}
 		}
 		return zero(valueStructType(ex.eng, pk))
@@ -935,9 +949,9 @@ func init() {
 			if _, srcIface := t.Underlying().(*types.Interface); !srcIface {
 				val = IfaceV{t: t, v: val}
 			}
-			return ex.mkRValue(pk, dt, ex.newObj(val), fl&rflagRO)
+			return ex.mkRValue(pk, dt, ex.newObj(val), rro(fl))
 		}
-		return ex.mkRValue(pk, dt, ex.newObj(ex.conv(dt, t, val)), fl&rflagRO)
+		return ex.mkRValue(pk, dt, ex.newObj(ex.conv(dt, t, val)), rro(fl))
 	}
 	m["Comparable"] = func(ex *Exec, pk string, _ *ssa.Function, a []Value) Value {
 		t, _, _ := ex.rvalMust(a[0], "Comparable")
